@@ -19,6 +19,7 @@ type Options struct {
 	timeout, workers, nsolvers                                      int
 	funcs                                                           string
 	verbose, names                                                  bool
+	only                                                            string
 	levelNote                                                       string
 }
 
@@ -45,6 +46,7 @@ func main() {
 	fs.StringVar(&o.funcs, "funcs", "", "comma-separated pkg.func[label] list (instead of -prop)")
 	fs.BoolVar(&o.verbose, "v", false, "verbose")
 	fs.BoolVar(&o.names, "names", false, "list every obligation")
+	fs.StringVar(&o.only, "only", "", "development: discharge only obligations whose name contains this substring")
 	fs.Parse(os.Args[2:])
 	if o.timeout == 0 {
 		if o.tier == "thorough" {
@@ -333,6 +335,15 @@ func runCheck(o *Options) int {
 		}
 	}
 
+	if o.only != "" {
+		var js []*job
+		for _, j := range jobs {
+			if strings.Contains(j.o.Name, o.only) {
+				js = append(js, j)
+			}
+		}
+		jobs = js
+	}
 	w.discharge(jobs, o.timeout, o.workers, o.nsolvers, o.keep)
 	return report(o, w, results, jobs, start)
 }
@@ -362,6 +373,8 @@ func collectStmtLemmas(ss []CStmt, set map[string]bool) {
 		case *SIf:
 			collectStmtLemmas(n.Then, set)
 			collectStmtLemmas(n.Else, set)
+		case *SForall:
+			collectStmtLemmas(n.Body, set)
 		}
 	}
 }
